@@ -827,7 +827,8 @@ func (c *c45Case) culprit(e c45Expect) (string, []map[string]any) {
 			continue
 		}
 		seen := p.snapshot()
-		class, info := c45Diff(seen, e.StageIn[i], e.OrderedAt[i], false)
+		par := c.Stages[i].Kind == "omap" || c.Stages[i].Kind == "pmap" // called concurrently: no order
+		class, info := c45Diff(seen, e.StageIn[i], e.OrderedAt[i] && !par, false)
 		if class == "" {
 			lastOK = i
 			continue
@@ -998,7 +999,9 @@ func TestVerif_C45(t *testing.T) {
 		}
 		// a fresh actor system per group: actors of finished streams must not
 		// influence later cases
+		tSys := time.Now()
 		sys := c45NewSystem(t)
+		r.Count("system_start_ms", time.Since(tSys).Milliseconds())
 		cases := make([]*c45Case, g)
 		outs := make([]c45Outcome, g)
 		var wg sync.WaitGroup
@@ -1011,7 +1014,14 @@ func TestVerif_C45(t *testing.T) {
 			}(i)
 		}
 		wg.Wait()
+		tSys = time.Now()
 		c45StopSystem(sys)
+		r.Count("system_stop_ms", time.Since(tSys).Milliseconds())
+		if os.Getenv("C45_DEBUG") != "" {
+			for i, c := range cases {
+				fmt.Fprintf(os.Stderr, "c45: g=%d elapsed=%v stop=%v got=%d %s\n", g, outs[i].Elapsed, time.Since(tSys), len(outs[i].Got), c.describe())
+			}
+		}
 		for i, c := range cases {
 			e := c.expect()
 			o := outs[i]
